@@ -86,6 +86,17 @@ def tree_classes(t):
 class C08(Prop):
   id = 'C08'
   lean_module = 'DK.Props.C08'
+  uses_t1 = True      # T1v regenerates DK/Gen/Vec.lean from the current source before the bridge is audited
+  bridge_vec = ['DK.BridgeVec.Device_cost', 'DK.BridgeVec.Device_deriv', 'DK.BridgeVec.CDevice_cost', 'DK.BridgeVec.CDevice_deriv',
+                'DK.BridgeVec.SDevice_costv', 'DK.BridgeVec.SDevice_cost', 'DK.BridgeVec.SDevice_deriv',
+                'DK.BridgeVec.IDevice2_costv', 'DK.BridgeVec.IDevice2_cost', 'DK.BridgeVec.IDevice2_deriv',
+                'DK.BridgeVec.IDevice_costv', 'DK.BridgeVec.IDevice_cost', 'DK.BridgeVec.IDevice_deriv',
+                'DK.BridgeVec.TDevice_costv', 'DK.BridgeVec.TDevice_cost', 'DK.BridgeVec.TDevice_deriv',
+                'DK.BridgeVec.GDevice_cost',
+                'DK.BridgeVec.GDevice_deriv',
+                'DK.BridgeVec.CDevice2_cost',
+                'DK.BridgeVec.CDevice2_deriv']      # T1v: vector method bodies (vk/translate_vec.py, DK/Lemmas/BridgeVec.lean)
+  bridge = bridge_vec
   theorems = ['DK.C08.leaf_cost', 'DK.C08.leaf_deriv', 'DK.C08.hess_indep',
               'DK.C08.device_cost', 'DK.C08.cdevice_cost', 'DK.C08.cdevice2_cost', 'DK.C08.idevice_cost',
               'DK.C08.idevice2_cost', 'DK.C08.gdevice_cost', 'DK.C08.sdevice_cost', 'DK.C08.tdevice_cost',
